@@ -27,19 +27,11 @@ type WorkerArgs struct {
 }
 
 func genScenario(a *WorkerArgs, run int) *Scenario {
-	switch a.Property {
-	case "C06":
-		return GenC06(a.VerifSeed, run)
-	}
-	return nil
+	return GenScenario(a.Property, a.VerifSeed, run)
 }
 
 func runScenario(rt *Runtime, sc *Scenario) RunResult {
-	switch sc.Property {
-	case "C06":
-		return RunC06(rt, sc)
-	}
-	return RunResult{Run: sc.Run, Trouble: "unknown property " + sc.Property}
+	return RunScenario(rt, sc)
 }
 
 func TestWorker(t *testing.T) {
